@@ -1,12 +1,47 @@
 """C27 Values with units are parsed to the documented magnitudes."""
+import fcntl
 import math
+import os
+import re
+import subprocess
 from fractions import Fraction
 
 from hypothesis import strategies as st
 
-from .. import core, xbt1
+from .. import build, core, xbt1
 
 DIG = "0123456789"
+
+
+def ensure_fuzz():
+    """thorough tier: the libFuzzer/ASan/UBSan target drivers/units_fuzz.cpp, compiled against the tree under test
+    (the framework's own `fuzz` rule has fixed include paths, so it cannot follow VF_REPO)."""
+    exe = os.path.join(build.DRV, "units_fuzz")
+    srcs = [os.path.join(build.VERIF, "drivers", "units_fuzz.cpp"), os.path.join(build.REPO, "src/xbt/xbt_parse_units.cpp"),
+            os.path.join(build.REPO, "src/simgrid/Exception.cpp")]
+    deps = srcs + [os.path.join(build.REPO, "include/simgrid/Exception.hpp"), os.path.join(build.REPO, "include/xbt/log.h"),
+                   os.path.join(build.REPO, "include/xbt/parse_units.hpp")]
+    os.makedirs(build.DRV, exist_ok=True)
+    with open(os.path.join(build.BUILD, ".units_fuzz.lock"), "w") as lk:
+        fcntl.flock(lk, fcntl.LOCK_EX)
+        if os.path.exists(exe) and os.path.getmtime(exe) >= max(os.path.getmtime(d) for d in deps):
+            return exe
+        cmd = ["clang++", "-std=gnu++17", "-g", "-O1", "-fsanitize=fuzzer,address,undefined", "-fno-sanitize-recover=undefined"] + \
+              ["-I" + os.path.join(build.REPO, d) for d in ("include", "src", "")] + \
+              ["-I" + os.path.join(build.SG, d) for d in ("include", "")] + srcs + ["-o", exe + ".tmp"]
+        r = subprocess.run(cmd, stdout=subprocess.PIPE, stderr=subprocess.STDOUT, text=True)
+        if r.returncode != 0:
+            raise core.Inconclusive("units_fuzz does not compile:\n" + r.stdout[-3000:])
+        os.replace(exe + ".tmp", exe)
+    return exe
+
+
+def fuzz_dictionary(path):
+    toks = set(ALL_UNITS) | {"e", "E", "e-", "e+", ".", "-", "+", "0", "1", "e308", "e-308", "e309", "1.7976931348623157e308", "0x", "inf",
+                             "nan", " ", "kilo", "mega", "flops", "ps", "Bps", "bps"}
+    with open(path, "w") as f:
+        for t in sorted(toks):
+            f.write('"%s"\n' % "".join(c if c.isalnum() or c in ".+-" else "\\x%02x" % ord(c) for c in t))
 
 # number literals sitting on the boundaries of strtod's range / rounding
 BOUNDARY_NUMS = [
@@ -20,13 +55,18 @@ BOUNDARY_NUMS = [
 ]
 
 
+def digits(lo, hi):
+    """a string of lo..hi decimal digits (leading zeros possible), from ONE integer draw (a text() of 300 characters costs 300 draws)"""
+    return st.integers(lo, hi).flatmap(lambda n: st.integers(0, 10 ** n - 1).map(lambda v: str(v).zfill(n)))
+
+
 def numbers():
     ip = st.one_of(st.sampled_from(["0", "1", "2", "7", "10", "100", "1000", "1024", "0001", "999999999"]),
-                   st.text(DIG, min_size=1, max_size=22),
+                   digits(1, 22),
                    st.integers(0, 2 ** 70).map(str),
-                   st.text(DIG, min_size=280, max_size=330))
-    fp = st.one_of(st.just(""), st.just(""), st.just("."), st.text(DIG, min_size=1, max_size=20).map(lambda d: "." + d),
-                   st.tuples(st.integers(0, 340), st.text(DIG, min_size=1, max_size=18)).map(lambda t: "." + "0" * t[0] + t[1]))
+                   digits(280, 330))
+    fp = st.one_of(st.just(""), st.just(""), st.just("."), digits(1, 20).map(lambda d: "." + d),
+                   st.tuples(st.integers(0, 340), digits(1, 18)).map(lambda t: "." + "0" * t[0] + t[1]))
     ex = st.one_of(
         st.just(""), st.just(""),
         st.tuples(st.sampled_from("eE"), st.sampled_from(["", "+", "-"]),
@@ -36,7 +76,7 @@ def numbers():
                   st.sampled_from(["", "", "", "0", "000"])).map(lambda t: t[0] + t[1] + t[3] + str(t[2])))
     sign = st.sampled_from(["", "", "", "-", "+"])
     built = st.tuples(sign, ip, fp, ex).map("".join)
-    nofrac_int = st.tuples(sign, st.text(DIG, min_size=1, max_size=18).map(lambda d: "." + d), ex).map("".join)
+    nofrac_int = st.tuples(sign, digits(1, 18).map(lambda d: "." + d), ex).map("".join)
     return st.one_of(built, built, built, nofrac_int, st.tuples(sign, st.sampled_from(BOUNDARY_NUMS)).map("".join))
 
 
@@ -139,6 +179,31 @@ def item(draw):
     return [k, s, ent]
 
 
+def cross_items(items):
+    """Generating a string costs ~5 ms of Hypothesis time, judging it 0.3 ms: every (number, unit) pair drawn for a scalar parser is
+    also recombined with the numbers/units of the other strings of the case and sent to all four scalar parsers (deterministic)."""
+    nums, units = [], {k: [] for k in xbt1.KINDS}
+    for kind, s, _e in items:
+        if kind in xbt1.KINDS:
+            m = xbt1.NUM_RE.match(s)
+            if m and m.end() > 0:
+                if m.group(0) not in nums:
+                    nums.append(m.group(0))
+                if s[m.end():] not in units[kind]:
+                    units[kind].append(s[m.end():])
+    have = {(k, s) for k, s, _e in items}
+    out = []
+    for ki, kind in enumerate(xbt1.KINDS):
+        for i, n in enumerate(nums[:14]):
+            for j, u in enumerate(units[kind][:5]):
+                # the unit with the parser it was drawn for; one time in five also with the next parser (unit of another kind)
+                for k2 in (kind, xbt1.KINDS[(ki + 1 + j) % 4]) if (i + j) % 5 == 0 else (kind,):
+                    if (k2, n + u) not in have:
+                        have.add((k2, n + u))
+                        out.append([k2, n + u, ""])
+    return out
+
+
 def hexval(h):
     if h in ("inf", "-inf"):
         return float(h)
@@ -150,11 +215,12 @@ def hexval(h):
 class C27(core.Prop):
     id = "C27"
     drivers = ["units_driver"]
-    sizes = {"quick": 4000, "thorough": 150000}
+    sizes = {"quick": 1200, "thorough": 60000}
     max_workers = 14
     technique = ("property-based testing (Hypothesis): total reference reader of '<number><unit>' strings (documented unit tables x exact "
                  "rational arithmetic) compared with xbt_parse_get_time/size/bandwidth(s)/speed/all_speeds called in-process")
-    rule = ("Each case is a batch of 24 strings for the six parsers of xbt_parse_units.cpp. Strings are built as number literal "
+    rule = ("Each case is a batch of 16 generated strings for the six parsers of xbt_parse_units.cpp, plus the recombinations of their "
+            "(number, unit) parts with each other and with the other scalar parsers (<=190 more strings, deterministic). Strings are built as number literal "
             "([sign] digits [. digits] [e[sign]digits], incl. 300-digit literals, leading zeros, literals on the DBL_MAX / DBL_MIN / "
             "rounding boundaries, exponents around +-308/324) + unit (every documented unit of the kind; units of the other kinds; "
             "documented units with one character case-flipped/dropped/inserted/appended; cross forms such as Kif, kiloB; random text), "
@@ -171,13 +237,15 @@ class C27(core.Prop):
                    "strings with NUL bytes are out of the domain (XML attributes cannot hold them)",
                    "reference tables are copied from docs/source/XML_reference.rst (time table, bandwidth prefixes), Z/Y prefixes from "
                    "upstream's xbt_str_test.cpp, speed prefixes from '1Gf = 1,000,000,000 flops' / '20kf = 20,000 flop/s'"]
-    ready = False
+    ready = True
 
     def strategy(self, tier):
-        return st.fixed_dictionaries({"items": st.lists(item(), min_size=24, max_size=24)})
+        return st.fixed_dictionaries({"items": st.lists(item(), min_size=16, max_size=16), "cross": st.just(True)})
 
     def fixed_cases(self, tier):
         cases = []
+        if tier == "thorough":
+            cases += [{"fuzz": {"seed": k, "runs": 1500000}} for k in range(1, 15)]
         nums = ["1", "2.5", "1e3", "-0.125e-2"]
         for kind in xbt1.KINDS:
             items = []
@@ -238,9 +306,43 @@ class C27(core.Prop):
                        "%s(%r) %s: accepted (allowed) but with value %r instead of %r" % (kind, s, where, val, float(v.value)))
         return False
 
-    def check(self, case):
+    def check_fuzz(self, fz):
+        """thorough tier only: one libFuzzer campaign (deterministic for a given seed) with the oracle inside the target."""
         oc = core.Outcome()
-        items = case["items"]
+        exe = ensure_fuzz()
+        tmp = core.tmpdir()
+        fuzz_dictionary(os.path.join(tmp, "units.dict"))
+        os.makedirs(os.path.join(tmp, "corpus"))
+        with open(os.path.join(tmp, "corpus", "seed1"), "wb") as f:
+            f.write(b"\x002.5e-3ms")
+        with open(os.path.join(tmp, "corpus", "seed2"), "wb") as f:
+            f.write(b"\x021.5e3MiBps")
+        r = core.run([exe, "-runs=%d" % fz["runs"], "-seed=%d" % fz["seed"], "-max_len=48", "-dict=" + os.path.join(tmp, "units.dict"),
+                      "-artifact_prefix=" + tmp + "/", "-print_final_stats=1", os.path.join(tmp, "corpus")],
+                     cpu=3600, wall=6 * 3600, mem_gb=0)
+        subprocess.run(["rm", "-rf", tmp])
+        if r.wall_exceeded:
+            raise core.Inconclusive()
+        oc.evals = fz["runs"]
+        oc.labels.append("fuzz-campaign")
+        m = re.search(r"VF-ORACLE (\w+) ([0-9a-f]*) (\S+) got=(\S+)", r.err)
+        if m:
+            s = bytes.fromhex(m.group(2)).decode("utf-8", "replace")
+            oc.bad("fuzz:" + m.group(3) + ":" + m.group(1), "libFuzzer found %s(%r): %s (returned %s); re-run as {\"items\": [[%r, %r, \"\"]]}"
+                   % (m.group(1), s, m.group(3), m.group(4), m.group(1), s))
+        elif r.rc != 0:
+            oc.bad("fuzz:sanitizer-or-crash", "units_fuzz rc=%s: %s" % (r.rc, r.err[-1500:]))
+        oc.nontrivial = True
+        oc.info = {"stats": [l for l in r.err.splitlines() if l.startswith("stat::")][:6]}
+        return oc
+
+    def check(self, case):
+        if "fuzz" in case:
+            return self.check_fuzz(case["fuzz"])
+        oc = core.Outcome()
+        items = list(case["items"])
+        if case.get("cross"):
+            items += cross_items(items)
         oc.evals = len(items)
         r = core.serve("units_driver", {"items": items}, cpu=20, wall=120)
         if r.wall_exceeded:
